@@ -1081,7 +1081,9 @@ class ConditionalRelation(RelationProtocol, SimpleRepr):
             else:
                 sliced_rel = self._relation_if_true
 
-            return ConditionalRelation(sliced_cond, sliced_rel)
+            return ConditionalRelation(
+                sliced_cond, sliced_rel, return_neutral=self._return_neutral
+            )
 
     def get_value_for_assignment(self, assignment):
 
